@@ -18,7 +18,7 @@ RULE = ('Hypothesis draws mode sizes (order 2..5, N <= 64 quick / 128 thorough),
         'spectrum in [-1,1], real or complex) converted with the harness\' TT-SVD, an initial state of maximal, intermediate or '
         'rank-1 TT ranks that the harness normalises and right-orthonormalises, a step size in [0.05,0.5], 1..3 steps, and for the '
         'two-site/hybrid schemes threshold and max_rank (defaults or caps). Oracle: scipy.linalg.expm(-i k h H) x0 for every '
-        'returned state when the ranks are maximal (all three TDVP variants) and for Krylov with a Krylov space of full dimension '
+        'returned state when the ranks are maximal or the dynamics is a product state under non-interacting sites (all three TDVP variants; mode sizes include 1) and for Krylov with a Krylov space of full dimension '
         '(N <= 16); for tdvp1site at every rank | ||x_k|| - 1 | and | <x_k|H|x_k> - <x_0|H|x_0> | <= 1e-9; the trajectory is '
         '[initial state by identity] + one state per step; operator and initial state bit-identical; rank caps respected. '
         'Non-trivial: complex H, order >= 3, non-maximal ranks, or >= 2 steps.')
@@ -26,12 +26,13 @@ ASSUMPTIONS = [
     'oracle: scipy.linalg.expm on the dense Hamiltonian; TT operators from vt/dense.tt_svd',
     'initial states are normalised and right-orthonormal (the sweeps assume a right-orthonormal start; every in-repo caller '
     'orthonormalises first) and have order >= 2 (sweeps are defined on bonds)',
-    'exactness is only claimed at maximal TT ranks with no effective truncation (threshold <= 1e-12, max_rank >= maximal rank)',
+    'exactness is only claimed where the manifold contains the exact trajectory (maximal TT ranks, or rank-1 states under a sum of single-site Hamiltonians) with no effective truncation (threshold <= 1e-12, max_rank >= maximal rank)',
     'Krylov: dimension = N <= 16 with a generic start vector (Lanczos without re-orthogonalisation), tolerance 1e-7',
 ]
 
 DIMS = [d for d in [[2, 2], [2, 3], [3, 3], [4, 4], [3, 5], [2, 2, 2], [2, 3, 2], [3, 3, 3], [2, 4, 2], [4, 4, 4], [2, 2, 2, 2], [2, 3, 3, 2],
-                    [2, 2, 2, 2, 2], [3, 2, 2, 3]] if int(np.prod(d)) <= NMAX]
+                    [2, 2, 2, 2, 2], [3, 2, 2, 3], [2, 2, 1], [1, 2, 2], [1, 3, 2, 1], [2, 1, 2], [3, 1], [1, 4], [2, 1, 1, 3], [1, 2, 3, 2]]
+        if int(np.prod(d)) <= NMAX]
 
 
 def hamiltonian(rng, N, cplx):
@@ -51,14 +52,14 @@ def tdvp_case(draw):
     dims = draw(st.sampled_from(DIMS))
     d = len(dims)
     mr = dense.max_ranks(dims)
-    rk = draw(st.sampled_from(['maximal', 'maximal', 'intermediate', 'rank1']))
+    rk = draw(st.sampled_from(['maximal', 'maximal', 'intermediate', 'rank1', 'product']))
     if rk == 'maximal':
         ranks = mr
-    elif rk == 'rank1':
+    elif rk in ('rank1', 'product'):
         ranks = [1] * (d + 1)
     else:
         ranks = [1] + [draw(st.integers(1, mr[i])) for i in range(1, d)] + [1]
-    c = {'dims': dims, 'ranks': ranks, 'rank_class': rk if ranks != mr else 'maximal', 'cplx': draw(st.booleans()), 'seed': draw(gen.SEED),
+    c = {'dims': dims, 'ranks': ranks, 'rank_class': rk if (ranks != mr or rk == 'product') else 'maximal', 'cplx': draw(st.booleans()), 'seed': draw(gen.SEED),
          'h': draw(st.sampled_from([0.05, 0.1, 0.25, 0.5])), 'steps': draw(st.integers(1, 3)),
          'method': draw(st.sampled_from(['tdvp1site', 'tdvp1site', 'tdvp2site', 'tdvp'])),
          'threshold': draw(st.sampled_from([None, None, 0, 1e-12, 1e-8])), 'max_rank': draw(st.sampled_from([None, None, 50, 2, 3]))}
@@ -69,13 +70,20 @@ def body_tdvp(c):
     rng = np.random.default_rng(c['seed'])
     dims, d = c['dims'], len(c['dims'])
     N = int(np.prod(dims))
-    H = hamiltonian(rng, N, c['cplx'])
+    product = c['rank_class'] == 'product'
+    if product:
+        # non-interacting sites: a product state stays a product state, so rank 1 represents the dynamics exactly
+        H = np.zeros((N, N), dtype=complex if c['cplx'] else float)
+        for i, n in enumerate(dims):
+            H = H + dense.embed(hamiltonian(rng, n, c['cplx']), i, dims)
+    else:
+        H = hamiltonian(rng, N, c['cplx'])
     op = TT(dense.op_cores(H, dims))
     x0 = initial_state(rng, dims, c['ranks'], c['cplx'])
     v0 = dense.matrix(x0.cores).reshape(-1).astype(complex)
     snaps = [(t, build.snapshot(t)) for t in (op, x0)]
     mr = dense.max_ranks(dims)
-    maximal = list(x0.ranks) == mr
+    maximal = list(x0.ranks) == mr or product
     m = c['method']
     kw = {}
     if m != 'tdvp1site':
@@ -88,7 +96,9 @@ def body_tdvp(c):
     require(sol[0] is x0, 'initial_by_identity', 'first element of the trajectory is not the initial state object')
     for t, s in snaps:
         build.require_unchanged(t, s, 'argument of ' + m)
-    lab = {m, 'ranks_' + ('maximal' if maximal else c['rank_class'])}
+    lab = {m, 'ranks_' + ('product' if product else 'maximal' if maximal else c['rank_class'])}
+    if 1 in dims:
+        lab.add('size1mode')
     if c['cplx']:
         lab.add('complex')
     if d >= 3:
@@ -97,7 +107,7 @@ def body_tdvp(c):
         lab.add('multi_step')
     cap = kw.get('max_rank', 50)
     th = kw.get('threshold', 1e-12)
-    truncating = m != 'tdvp1site' and (cap < max(mr) or th > 1e-12)
+    truncating = m != 'tdvp1site' and ((cap < max(mr) and not product) or th > 1e-12)
     if truncating:
         lab.add('truncating')
     e0 = np.real(np.vdot(v0, H @ v0))
@@ -161,12 +171,12 @@ def body_krylov(c):
 
 
 def nt(labels):
-    return bool({'complex', 'order>=3', 'ranks_intermediate', 'ranks_rank1', 'multi_step'} & set(labels))
+    return bool({'complex', 'order>=3', 'ranks_intermediate', 'ranks_rank1', 'ranks_product', 'size1mode', 'multi_step'} & set(labels))
 
 
 SUBCHECKS = [
     Sub('tdvp', tdvp_case(), body_tdvp, nt, quick=250, thorough=2500, shards_quick=8, budget_quick=150,
-        classes=['tdvp1site', 'tdvp2site', 'tdvp', 'ranks_maximal', 'ranks_intermediate', 'ranks_rank1', 'complex', 'order>=3', 'multi_step',
+        classes=['tdvp1site', 'tdvp2site', 'tdvp', 'ranks_maximal', 'ranks_intermediate', 'ranks_rank1', 'ranks_product', 'size1mode', 'complex', 'order>=3', 'multi_step',
                  'truncating']),
     Sub('krylov', krylov_case(), body_krylov, nt, quick=100, thorough=1000, shards_quick=4, budget_quick=150,
         classes=['krylov', 'complex', 'order>=3']),
